@@ -105,6 +105,14 @@ def jobs(pid, tier):
             J.append(Job('autoref_life', dict(N=5, L=3), need_outcomes=['done:var', 'done:ite']))
             J.append(Job('k7_swap', dict(N=4, L=3, x=1, K=2, handle=True), need_outcomes=['swapped']))
             J.append(Job('k8_gc', dict(N=5, L=3, roots=0, nondet=True), need_outcomes=['collected']))
+    # every harness starts from "an arbitrary state satisfying INV" (tables, counts, sound result
+    # cache): the two operations that rewrite the tables wholesale must give such a state back
+    if pid in ('C03', 'C04', 'C05', 'C07', 'C10', 'C11', 'C12', 'C13', 'C17', 'C18'):
+        have = {(j.mod.split('.')[-1], j.params.get('N'), j.params.get('L')) for j in J}
+        if ('k8_gc', 4, 2) not in have:
+            J.append(Job('k8_gc', dict(N=4, L=2, roots=0, nondet=True), need_outcomes=['collected', 'nothing_to_collect']))
+        if ('k7_swap', 4, 2) not in have:
+            J.append(Job('k7_swap', dict(N=4, L=2, x=0, K=2), need_outcomes=['swapped']))
     # the property's own decorated operations under dynamic reordering (the reorder contract with
     # a real change of order, firing at every node creation): the C09 harness restricted to them
     DYN = {'C01': ['ite', 'apply_and'], 'C02': ['var', 'cube', 'apply_and'],
